@@ -50,6 +50,13 @@ Theorem ids_never_reused : forall ops,
 Proof. exact t_ids_unique. Qed.
 Print Assumptions ids_never_reused.
 
+(* 4'. An identifier returned by connect() is announced connected at most once (with theorems 1 and 2: at most one
+       onConnect, one onClose, nothing after the close - exactly what C04's model assumes of the engine). *)
+Theorem outbound_connect_announced_at_most_once : forall ops i,
+  In i (e_issued (fst (erun einit ops))) -> (nconn (snd (erun einit ops)) i <= 1)%nat.
+Proof. exact t_connect_once. Qed.
+Print Assumptions outbound_connect_announced_at_most_once.
+
 (* 5. The gauge equals the number of sessions in the table; every announced and not yet closed session is
       in the table (so the gauge never under-counts); it is zero once the drain has closed everything. *)
 Theorem gauge_exact : forall ops,
